@@ -27,13 +27,17 @@ EXPLANATION = (
     'duplicate and late answers, loss of the connection inside a result handler, no-answer calls, tag injectivity across '
     '2^16/2^32, failAllOutgoing and AMP.connectionLost in five protocol states with re-entrant and later calls, replies '
     '(answer, declared/fatal/undeclared error, unhandled command, no ASK) and error translation on caller and responder '
-    "side. Bounded evidence only: 'answer goes to its own question', tag freshness and the error-code mappings (value-flow "
+    'side, calls made in the window between a local close request and connectionLost (the real sendBox interpreted), declared errors whose text '
+    'cannot be encoded. STRUCTURAL as well: sendBox raises a connection-state exception only where `self.transport is None` is established '
+    '(callRemote never raises while a transport exists); the reply formatters _commandReceived installs contain no strict encode/decode and no raise '
+    'outside a converting handler (every command that asks gets its one box). '
+    "Bounded evidence only: 'answer goes to its own question', tag freshness and the error-code mappings (value-flow "
     'clauses; the structural rules decide the exactly-once and disconnect orderings). Not decided: real scheduling, the '
     'synchronous loop-back case, responders that never answer.'
 )
 RULE_KINDS = {
     "state/who-may-write": "structural", "match/take-before-fire": "structural", "drain/reason-recorded-first": "structural", "drain/table-reset-first": "structural",
-    "send/late-call-refused": "structural", "drain/reaches-fail-all": "structural",
+    "send/late-call-refused": "structural", "drain/reaches-fail-all": "structural", "reply/formatter-total": "structural", "send/connection-state-never-raises": "structural",
     "*": "bounded",      # scenario interpretation with modelled Deferreds: a verdict about the enumerated histories
 }
 ASSUMPTIONS = [
@@ -544,6 +548,9 @@ def check_replies(ctx, mod, consts):
         ("declared error", lambda w: FailureModel(w, w.ev.helpers["RemoteAmpError"](b"MYCODE", "nope")), "AmpBox", b"MYCODE", b"nope", False),
         ("fatal declared error", lambda w: FailureModel(w, w.ev.helpers["RemoteAmpError"](b"FATAL", "dead", True)), "QuitBox", b"FATAL", b"dead", True),
         ("undeclared error", lambda w: FailureModel(w, OpaqueInst(Opaque("ZeroDivisionError"))), "QuitBox", consts["UNKNOWN_ERROR_CODE"], None, True),
+        ("declared error whose text has a lone surrogate", lambda w: FailureModel(w, w.ev.helpers["RemoteAmpError"](b"MYCODE", "no such file: \udcff.txt")), "AmpBox", b"MYCODE", None, False),
+        ("declared error with non-ASCII text", lambda w: FailureModel(w, w.ev.helpers["RemoteAmpError"](b"MYCODE", "na\u00efve \u2603")), "AmpBox", b"MYCODE", "na\u00efve \u2603".encode("utf-8"), False),
+        ("declared error with a bytes description", lambda w: FailureModel(w, w.ev.helpers["RemoteAmpError"](b"MYCODE", b"raw \xff")), "AmpBox", b"MYCODE", b"raw \xff", False),
     ]
     for label, mk, boxcls, code, desc, quits in cases:
         w = World(ctx, mod, consts)
@@ -819,6 +826,125 @@ def check_structural_drain(ctx, mod):
                   witness=g.describe(wit))
 
 
+def check_structural_send_state(ctx, mod):
+    """callRemote never raises for connection state while the connection exists: in BinaryBoxProtocol.sendBox (what _sendBoxCommand reaches through
+    _sendTo) a connection-state exception is raised only where `self.transport is None` is established - before the connection is made, or after
+    connectionLost, when _failAllReason already answers every call through its Deferred.  A raise reachable with a live transport (closing, paused,
+    ...) turns 'fails through its Deferred, exactly once' into a synchronous exception."""
+    from sa.props._lib_g import expand, single_defs
+    f = ctx.func(AMP, "BinaryBoxProtocol.sendBox")
+    q = Q + ".BinaryBoxProtocol.sendBox"
+    g = ctx.cfg(f)
+    defs = single_defs(f)
+
+    def none_fact(test, lab) -> Optional[bool]:
+        """True: the edge establishes `self.transport is None`; False: establishes it is not None."""
+        flip = lab == "F"
+        t = expand(test, defs)
+        while isinstance(t, ast.UnaryOp) and isinstance(t.op, ast.Not):
+            t, flip = t.operand, not flip
+        if isinstance(t, ast.Compare) and len(t.ops) == 1:
+            a, b = t.left, t.comparators[0]
+            if isinstance(a, ast.Constant) and a.value is None:
+                a, b = b, a
+            if src(a) == "self.transport" and isinstance(b, ast.Constant) and b.value is None:
+                if isinstance(t.ops[0], (ast.Is, ast.Eq)):
+                    return not flip
+                if isinstance(t.ops[0], (ast.IsNot, ast.NotEq)):
+                    return flip
+        if src(t) == "self.transport":      # truthiness
+            return flip
+        return None
+
+    n = 0
+    for i in g.ids(lambda nd: nd.kind == "stmt" and isinstance(nd.ast, ast.Raise) and nd.ast.exc is not None):
+        r = g.node(i).ast
+        e = r.exc.func if isinstance(r.exc, ast.Call) else r.exc
+        name = src(e).split(".")[-1]
+        if not name.startswith("Connection") and name not in ("NotConnected",):
+            continue
+        n += 1
+        ok = any(none_fact(g.node(t).ast, lab) is True for t, lab in g.edge_guards(i))
+        ctx.check(ok, "send/connection-state-never-raises", f"{q} | raise {name}",
+                  f"`{src(r)}` is reachable while self.transport is still set (the guards on the way do not establish `self.transport is None`): a callRemote made while the "
+                  "connection is going away raises synchronously instead of returning a Deferred that fails, exactly once, with the connection-loss reason")
+    if not n:
+        ctx.note("send/connection-state-never-raises: sendBox raises no connection-state exception")
+
+
+def check_closing_window(ctx, mod, consts):
+    """Bounded: the local side asked the transport to close, connectionLost has not been delivered yet; a call made in that window returns a Deferred
+    that fails exactly once when the loss is reported.  The real BinaryBoxProtocol.sendBox is interpreted (the AMP instance is its own box sender)."""
+    q = Q + ".BoxDispatcher._sendBoxCommand"
+    for label, tattrs in (("transport open", {"disconnecting": False, "disconnected": False}), ("local close requested, connectionLost not yet delivered", {"disconnecting": True, "disconnected": False})):
+        w = World(ctx, mod, consts)
+        tr = Stub("transport", attrs=dict(tattrs))
+        a = Inst(w.cls["AMP"], boxReceiver=None, locator=w.locator, _outstandingRequests={}, transport=tr, _transportPeer="peer", _transportHost="host", _ampInitialized=True)
+        a.fields["boxReceiver"] = a
+        a.fields["boxSender"] = a
+        k, d, b = w.call(a, b"during")
+        p = w.probe(d)
+        bad = None
+        if k != "value" or not isinstance(d, DeferredModel):
+            bad = f"callRemote with the {label} {'raises ' + str(d) if k == 'raised' else 'returns ' + repr(d)} instead of returning a Deferred"
+        elif d.called:
+            bad = f"the Deferred of a call made with the {label} has already fired before the connection was lost"
+        else:
+            reason = FailureModel(w, OpaqueInst(Opaque("ConnectionDone")))
+            k2, v2 = w.run("AMP.connectionLost", lambda: w.ev.method(a, "connectionLost", [reason]))
+            if k2 != "value":
+                bad = f"connectionLost raises {v2}"
+            elif len(p["err"]) != 1 or p["ok"] or w.double_fires:
+                bad = f"after connectionLost the call made with the {label} has {len(p['err'])} failures and {len(p['ok'])} results (exactly one failure is required)"
+        ctx.check(bad is None, "send/call-while-closing", q + f" | {label}", bad or "")
+
+
+_LENIENT = ("replace", "ignore", "backslashreplace", "xmlcharrefreplace", "surrogateescape", "surrogatepass", "namereplace")
+
+
+def check_structural_formatters(ctx, mod):
+    """Every command that asks for an answer gets exactly one answer or error box: the functions that turn the responder's result or failure into
+    that box (the callbacks _commandReceived adds to the responder's Deferred) are total.  Decided for the may-raise sites recognised positively:
+    a strict .encode()/.decode() of text that comes from the failure, and explicit raise statements, outside a handler that converts them."""
+    f = ctx.func(AMP, "BoxDispatcher._commandReceived")
+    q = Q + ".BoxDispatcher._commandReceived"
+    nested = {n.name: n for n in ast.walk(f) if isinstance(n, (ast.FunctionDef, ast.Lambda)) and n is not f and hasattr(n, "name")}
+    used: List[ast.FunctionDef] = []
+    for c in ast.walk(f):
+        if isinstance(c, ast.Call) and isinstance(c.func, ast.Attribute) and c.func.attr in ("addCallbacks", "addCallback", "addErrback", "addBoth"):
+            for a in list(c.args) + [k.value for k in c.keywords]:
+                if isinstance(a, ast.Name) and a.id in nested and not any(nested[a.id] is u for u in used):
+                    used.append(nested[a.id])
+    if not used:
+        ctx.note("reply/formatter-total: _commandReceived adds no locally defined callback; clause left to the reply scenarios")
+        return
+    for fn in used:
+        g = ctx.cfg(fn)
+        cons = f"{q}.{fn.name}"
+        bad = None
+        for n in ast.walk(fn):
+            if isinstance(n, ast.Raise):
+                bad = bad or f"`{src(n)}`"
+            if isinstance(n, ast.Call) and isinstance(n.func, ast.Attribute) and n.func.attr in ("encode", "decode") and not isinstance(n.func.value, ast.Constant):
+                errs = n.args[1] if len(n.args) > 1 else next((k.value for k in n.keywords if k.arg == "errors"), None)
+                lenient = isinstance(errs, ast.Constant) and errs.value in _LENIENT
+                if lenient:
+                    continue
+                handled = False
+                for i in g.ids_of(n):
+                    hs = [g.node(h).ast for h, l in g.succ[i] if l == "exc" and g.node(h).kind == "handler"]
+                    for h in hs:
+                        ts = [] if h.type is None else (h.type.elts if isinstance(h.type, ast.Tuple) else [h.type])
+                        names = {src(t).split(".")[-1] for t in ts}
+                        if h.type is None or names & {"UnicodeError", "UnicodeEncodeError", "UnicodeDecodeError", "ValueError", "Exception", "BaseException"}:
+                            handled = True
+                if not handled:
+                    bad = bad or (f"`{src(n)}` is a strict {n.func.attr}: text that cannot be encoded (a lone surrogate from a file name or a decoded byte string in an error "
+                                  f"message) raises Unicode{'En' if n.func.attr == 'encode' else 'De'}codeError inside {fn.name}")
+        ctx.check(bad is None, "reply/formatter-total", cons, (bad or "") + ": no answer or error box is produced for the command, the failure goes to unhandledError and the "
+                  "connection is dropped with every pending call of both peers")
+
+
 def _role(st, box) -> str:
     t = src(st)
     if "_outstandingRequests" in t:
@@ -835,8 +961,14 @@ def check(ctx):
         check_structural(ctx, mod)
     with ctx.section("structural drain"):
         check_structural_drain(ctx, mod)
+    with ctx.section("structural reply formatters"):
+        check_structural_formatters(ctx, mod)
+    with ctx.section("structural send state"):
+        check_structural_send_state(ctx, mod)
     with ctx.section("matching"):
         check_matching(ctx, mod, consts)
+    with ctx.section("closing window"):
+        check_closing_window(ctx, mod, consts)
     with ctx.section("disconnect"):
         check_disconnect(ctx, mod, consts)
     with ctx.section("replies"):
@@ -848,6 +980,13 @@ def check(ctx):
 
 
 MUTANTS = [
+    # a call made while the connection is going away fails through its Deferred; the reply formatters are total
+    Mutant("sendbox-refuses-on-unconnected-flag", AMP, "        if self.transport is None:\n            raise ConnectionLost()\n", "        if self.transport is None or not self.transport.connected:\n            raise ConnectionLost()\n",
+           expect_rule="send/connection-state-never-raises"),
+    Mutant("sendbox-refuses-while-disconnecting-second-test", AMP, "        if self.transport is None:\n            raise ConnectionLost()\n",
+           "        if self.transport is None:\n            raise ConnectionLost()\n        if self.transport.disconnecting:\n            raise ConnectionLost()\n", expect_rule="send/call-while-closing"),
+    Mutant("error-description-strict-ascii", AMP, '                    desc = desc.encode("utf-8", "replace")\n', '                    desc = desc.encode("ascii")\n', expect_rule="reply/formatter-total"),
+    Mutant("error-description-errors-keyword-strict", AMP, '                    desc = desc.encode("utf-8", "replace")\n', '                    desc = desc.encode("utf-8", errors="strict")\n', expect_rule="reply/declared-error"),
     Mutant("answer-read-not-popped", AMP, "        question = self._outstandingRequests.pop(box[ANSWER])\n", "        question = self._outstandingRequests[box[ANSWER]]\n",
            expect_rule=None),
     Mutant("error-popped-after-fire", AMP, "        question = self._outstandingRequests.pop(box[ERROR])\n", "        question = self._outstandingRequests[box[ERROR]]\n",
@@ -877,6 +1016,13 @@ MUTANTS = [
 ]
 
 SILENT = [
+    Silent("error-description-backslashreplace", AMP, '                    desc = desc.encode("utf-8", "replace")\n', '                    desc = desc.encode("utf-8", errors="backslashreplace")\n'),
+    Silent("error-description-strict-with-fallback", AMP, '                    desc = desc.encode("utf-8", "replace")\n',
+           '                    try:\n                        desc = desc.encode("utf-8")\n                    except UnicodeEncodeError:\n                        desc = desc.encode("utf-8", "replace")\n'),
+    Silent("sendbox-transport-through-a-local", AMP, "        if self.transport is None:\n            raise ConnectionLost()\n", "        transport = self.transport\n        if transport is None:\n            raise ConnectionLost()\n",
+           more=[(AMP, "            self.transport.write(box.serialize())\n", "            transport.write(box.serialize())\n")]),
+    Silent("sendbox-connection-test-inverted", AMP, "        if self.transport is None:\n            raise ConnectionLost()\n        if self._startingTLSBuffer is not None:\n            self._startingTLSBuffer.append(box)\n        else:\n            self.transport.write(box.serialize())\n",
+           "        if self.transport is not None:\n            if self._startingTLSBuffer is not None:\n                self._startingTLSBuffer.append(box)\n            else:\n                self.transport.write(box.serialize())\n            return\n        raise ConnectionLost()\n"),
     Silent("question-claimed-by-helper", AMP, "        question = self._outstandingRequests.pop(box[ANSWER])\n        question.addErrback(self.unhandledError)\n        question.callback(box)\n",
            "        self._take(box, ANSWER).callback(box)\n\n    def _take(self, box, key):\n        pending = self._outstandingRequests.pop(box[key])\n        pending.addErrback(self.unhandledError)\n        return pending\n",
            more=[(AMP, "        question = self._outstandingRequests.pop(box[ERROR])\n        question.addErrback(self.unhandledError)\n", "        question = self._take(box, ERROR)\n")]),
